@@ -12,7 +12,8 @@ PATTERNS = [('trusted statement', re.compile(r"\.trusted\.add\(|ded\.trust\(")),
             ('axiom', re.compile(r"\('axiom'")),
             ('facts clause (assumed at entry / after calls, never asserted)', re.compile(r"\bfacts\s*=")),
             ('external-call model', re.compile(r"^EXTERNALS\b|^\s*EXTERNALS\[|externals=|'method:[A-Za-z]+\.[a-z_]+'\s*:")),
-            ('inline (executed, not a contract)', re.compile(r"inline=True"))]
+            ('inline (executed, not a contract)', re.compile(r"inline=True")),
+            ('assumed contract on repository or library code (used at call sites, body not verified)', re.compile(r"ASSUMED"))]
 
 
 def main():
